@@ -510,20 +510,6 @@ func init() {
 		}
 		return in.tc.Bool(err.t == nil && target.t == nil), nDone
 	}
-	natives["(*sync.Once).Do"] = func(in *Interp, cc *callCtx, args []Value) (Value, nativeStatus) {
-		p := args[0].(Ptr)
-		d := in.term(p.obj.get(p.off))
-		if d.IsConst() && d.k != 0 {
-			return nil, nDone
-		}
-		p.obj.set(p.off, in.tc.Const(1, d.w))
-		fv := args[1].(*FuncVal)
-		if cc.advance {
-			cc.f.ip++
-		}
-		in.pushFrame(cc.th, fv.fn, nil, fv.bindings, -1)
-		return nil, nPushed
-	}
 	registerSyncNatives()
 	registerIntrinsics()
 }
